@@ -247,7 +247,8 @@ def parse_views(sc, out, tier, rng, model):
 F_TOOLS = ["mcp__ok__x", "mcp__ok__bad", "mcp__q__y", "mcp__none", "mcp__", "mcp__ok__x ", "Mcp__ok__x", "mcp__ok__xx", "xmcp__ok__x", "ls", "Bash",
            "rm -rf /", "git push", "*", "mcp__ok__x\n", "zap", "mcp__a/b", "mcp__ok__*"]
 F_CMDS = ["ls", "rm x", "git push", "zap it", "okcmd", "frobnicate a", "cat f > /tmp/x", "mcp__ok__x", "mcp__ok__x a", "Bash", "echo hi > mcp__ok__x", "g status"]
-F_PATS = ["*", "mcp__*", "mcp__ok__*", "mcp__ok__x", "mcp__ok__bad", "mcp__?__y", "mcp__[a-o]*", "ls", "rm *", "git *", "zap", "okcmd", "Bash", "g", "/tmp/*",
+# (the last ones are patterns some matcher cannot compile: a rule nobody can match is inert, it must not take the file down)
+F_PATS = ["/tmp/**/[z-a]*.log", "**/[z-a]", "x[", "[!", "**/[a", "[]", "a**b/[9-0]", "*", "mcp__*", "mcp__ok__*", "mcp__ok__x", "mcp__ok__bad", "mcp__?__y", "mcp__[a-o]*", "ls", "rm *", "git *", "zap", "okcmd", "Bash", "g", "/tmp/*",
           "mcp__ok__x *", "nomatch", "mcp__ok__x|"]
 
 
@@ -316,7 +317,12 @@ def family_streams(sc, out, tier, rng, replay_case=None):
                 else:  # move: the family's lines of this layer go to the front of the layer
                     new = mine + [l for l, f in zip(layer, fs) if f != fam]
                 edited.append(new)
-            a, b = load([cfg(l) for l in layers]), load([cfg(l) for l in edited])
+            try:
+                a, b = load([cfg(l) for l in layers]), load([cfg(l) for l in edited])
+            except Exception as e:  # a line that cannot be loaded takes every rule of BOTH families with it
+                out.violations.append({"kind": "family", "case": case, "what": f"loading the configuration raised {type(e).__name__}: {e} - the rules of the other family are lost with it",
+                                       "signature_text": f"family-load | {type(e).__name__}"})
+                return
             other = "shell" if fam == "mcp" else "mcp"
             ra, rb = (shell_answers(a), shell_answers(b)) if other == "shell" else (mcp_answers(a), mcp_answers(b))
             out.count("family_stream", f"{fam}:{case['edit']}")
